@@ -9,6 +9,7 @@ import (
 	"fmt"
 	"io/ioutil"
 	"os"
+	"runtime/debug"
 	"strconv"
 	"strings"
 	"testing"
@@ -16,6 +17,14 @@ import (
 
 	"verif.local/vcommon/stats"
 )
+
+// vGuardTest turns a panic on the test goroutine (harness code) into an
+// infrastructure failure instead of a process crash.
+func vGuardTest(t *testing.T) {
+	if r := recover(); r != nil {
+		t.Fatalf("VERIF-INFRA: panic on the harness goroutine: %v\n%s", r, debug.Stack())
+	}
+}
 
 func vEnvInt(name string, def int) int {
 	if v, err := strconv.Atoi(os.Getenv(name)); err == nil {
@@ -113,6 +122,7 @@ func vRecord(sc *vScenario, res *vResult, prop string) {
 // (monitor in mon_test.go). Liveness is not judged here.
 func TestVerifC14E2E(t *testing.T) {
 	defer stats.Flush()
+	defer vGuardTest(t)
 	lim := vLimits{idleCap: 1500 * time.Millisecond, totalCap: 25 * time.Second}
 	if sc := vLoadReplay(t); sc != nil {
 		for i := 0; i < 20; i++ {
@@ -150,6 +160,7 @@ func TestVerifC14E2E(t *testing.T) {
 // healthy) and checks convergence with the stuck rule.
 func TestVerifC15Liveness(t *testing.T) {
 	defer stats.Flush()
+	defer vGuardTest(t)
 	// fault-free completion time, measured in this process
 	cal := &vScenario{Seed: 424242, Mode: "c15", Gomaxprocs: 4, StaleLockTimeoutMs: 5, TimeScale: 1}
 	for i := 0; i < 50; i++ {
